@@ -489,6 +489,21 @@ func (fr *Frame) store(x *ssa.Store, st *State) {
 	if isStruct(elem) {
 		dst := fx.materialize(pv, x.Addr.Type())
 		fx.frameWrite(st, dst, "struct "+typeKey(elem), x.Pos(), fr)
+		// a whole-struct assignment is a store to each of its scalar fields: store anchors see them one by one
+		if fr.top && fx.contract != nil {
+			src := fx.materialize(v, elem)
+			for _, f := range structFields(elem) {
+				if isStruct(f.Type()) || isArray(f.Type()) {
+					continue
+				}
+				key := fieldKey(elem, f.Name())
+				fr.ghostAnchors("store:"+key, st)
+				if len(fx.contract.Asserts) > 0 {
+					fv := fx.readLV(st, &LV{Key: key, Ref: src, Sort: sortOf(f.Type())})
+					fr.storeAsserts("store:"+key, st, x.Pos(), x.Block(), SVal{V: tv(fv), Ty: f.Type()}, SVal{V: tv(dst), Ty: x.Addr.Type()})
+				}
+			}
+		}
 		fx.copyStruct(st, dst, fx.materialize(v, elem), elem, 0)
 		return
 	}
